@@ -234,37 +234,56 @@ Section Model.
   | ODelete (c : coll) (h : href)                              (* Collection.delete(href) *)
   | ODeleteColl (c : coll).                                    (* Collection.delete() *)
 
-  Inductive sres := RGet (r : gres) (evs : list ev) | RNames (l : list href) | RDone | RError.
+  Inductive sres := RGet (r : gres) | RNames (l : list href) | RDone | RError.
 
   (* per-request state: the store and the Collection objects whose _item_cache_cleaned flag is set *)
   Record rst := mkRst { r_st : st; r_cleaned : list N }.
 
   Definition is_cleaned (cl : list N) (obj : N) : bool := existsb (N.eqb obj) cl.
 
-  Definition exec_get (g : cfg) (lk : lockmode) (r : rst) (obj : N) (c : coll) (h : href) : sres * rst :=
+  (* result, instrumentation events (cache hit / miss / store: NOT visible to the handler), new state *)
+  Definition exec_get (g : cfg) (lk : lockmode) (r : rst) (obj : N) (c : coll) (h : href) : sres * list ev * rst :=
     let o := get g lk (is_cleaned (r_cleaned r) obj) (s_files (r_st r)) (s_cache (r_st r)) c h in
-    (RGet (o_res o) (o_evs o),
+    (RGet (o_res o), o_evs o,
      mkRst (mkSt (s_files (r_st r)) (o_cache o))
            (if o_cleaned o then (if is_cleaned (r_cleaned r) obj then r_cleaned r else obj :: r_cleaned r)
             else r_cleaned r)).
 
-  Definition exec_op (g : cfg) (lk : lockmode) (o : sop) (r : rst) : sres * rst :=
+  Definition exec_op (g : cfg) (lk : lockmode) (o : sop) (r : rst) : sres * list ev * rst :=
     match o with
     | OGet obj c h => exec_get g lk r obj c h
-    | OList c => (RNames (list_coll (s_files (r_st r)) c), r)
+    | OList c => (RNames (list_coll (s_files (r_st r)) c), [], r)
     | OUpload obj c h f d =>
         (* upload.py 64-70: history, then uploaded_item = self._get(href, verify_href=False) *)
         exec_get g lk (mkRst (upload_write g (r_st r) c h f d) (r_cleaned r)) obj c h
-    | OCreate c items => (RDone, mkRst (create_collection g (r_st r) c items) (r_cleaned r))
+    | OCreate c items => (RDone, [], mkRst (create_collection g (r_st r) c items) (r_cleaned r))
     | OMove c h c2 h2 => match move_item g (r_st r) c h c2 h2 with
-                         | Some s' => (RDone, mkRst s' (r_cleaned r))
-                         | None => (RError, r)
+                         | Some s' => (RDone, [], mkRst s' (r_cleaned r))
+                         | None => (RError, [], r)
                          end
     | ODelete c h => match delete_item g (r_st r) c h with
-                     | Some s' => (RDone, mkRst s' (r_cleaned r))
-                     | None => (RError, r)
+                     | Some s' => (RDone, [], mkRst s' (r_cleaned r))
+                     | None => (RError, [], r)
                      end
-    | ODeleteColl c => (RDone, mkRst (delete_coll (r_st r) c) (r_cleaned r))
+    | ODeleteColl c => (RDone, [], mkRst (delete_coll (r_st r) c) (r_cleaned r))
+    end.
+
+  (* the same calls on a server that has no cache at all: the specification *)
+  Definition spec_op (g : cfg) (o : sop) (fs : files) : sres * files :=
+    match o with
+    | OGet _ c h => (RGet (cold g (flook fs c h)), fs)
+    | OList c => (RNames (list_coll fs c), fs)
+    | OUpload _ c h f _ => (RGet (cold g (Some f)), aput fkey_eqb fs (c, h) f)
+    | OCreate c items => (RDone, bulk_files (filter (not_coll_file c) fs) c items)
+    | OMove c h c2 h2 => match flook fs c h with
+                         | None => (RError, fs)
+                         | Some f => (RDone, aput fkey_eqb (adel fkey_eqb fs (c, h)) (c2, h2) f)
+                         end
+    | ODelete c h => match flook fs c h with
+                     | None => (RError, fs)
+                     | Some _ => (RDone, adel fkey_eqb fs (c, h))
+                     end
+    | ODeleteColl c => (RDone, filter (not_coll_file c) fs)
     end.
 
   (* a handler: any program that talks to the store only through these calls *)
@@ -275,7 +294,13 @@ Section Model.
   Fixpoint run {R} (g : cfg) (lk : lockmode) (p : prog R) (r : rst) : R * rst :=
     match p with
     | Ret x => (x, r)
-    | Do o k => let '(a, r') := exec_op g lk o r in run g lk (k a) r'
+    | Do o k => let '(a, _, r') := exec_op g lk o r in run g lk (k a) r'
+    end.
+
+  Fixpoint run_spec {R} (g : cfg) (p : prog R) (fs : files) : R * files :=
+    match p with
+    | Ret x => (x, fs)
+    | Do o k => let '(a, fs') := spec_op g o fs in run_spec g (k a) fs'
     end.
 
   (* ---------------------------------------------------------------- what happens between requests *)
@@ -324,6 +349,17 @@ Section Model.
       let '(a, s2) := hstep_apply x s1 in
       let '(l, s3) := run_hist r (tl advs) s2 in
       (a :: l, s3)
+    end.
+
+  Definition ext_files (fs : files) (c : coll) (h : href) (of : option file) : files :=
+    match of with Some f => aput fkey_eqb fs (c, h) f | None => adel fkey_eqb fs (c, h) end.
+
+  Fixpoint run_hist_spec {R} (hs : list (hstep R)) (fs : files) : list (option R) * files :=
+    match hs with
+    | [] => ([], fs)
+    | HReq g lk p :: r => let '(a, fs1) := run_spec g p fs in
+                          let '(l, fs2) := run_hist_spec r fs1 in (Some a :: l, fs2)
+    | HExt c h of :: r => let '(l, fs2) := run_hist_spec r (ext_files fs c h of) in (None :: l, fs2)
     end.
 End Model.
 
